@@ -36,8 +36,11 @@ def hMaxPos (j : Json) : R Json := do
     | .ok v => (v.getNat?).toOption
     | .error _ => none
   let g := Usid.Mem.granted (← nat j "avail") mb
-  return Json.mkObj [("granted", g),
-    ("maxpos", Usid.Mem.maxPos g (← nat j "workers") (← nat j "rowbytes") (← nat j "num") (← nat j "den"))]
+  -- the GENERATED `__set_memory` decides the batch size; `granted` is reported for the oracle's messages only
+  return match set_memory (← int j "avail") (← optInt j "mb") ⟨← int j "num", ← int j "den"⟩ (← int j "workers") 1
+      (← int j "rowbytes") 1 with
+    | .error e => err e
+    | .ok mp => Json.mkObj [("granted", g), ("maxpos", toJson mp)]
 
 def optNat (j : Json) (k : String) : Option Nat :=
   match j.getObjVal? k with
@@ -45,18 +48,21 @@ def optNat (j : Json) (k : String) : Option Nat :=
   | .ok v => (v.getNat?).toOption
   | .error _ => none
 
-/-- constructor sizing: generated `__set_cores`, then the exact-arithmetic `__set_memory` -/
-def sizing (j : Json) : R (Except PyErr (Int × Nat)) := do
+/-- constructor sizing: generated `__set_cores`, then the generated `__set_memory` (floats as exact fractions;
+    one rank on the socket; `rowbytes` = itemsize × columns) -/
+def sizing (j : Json) : R (Except PyErr (Int × Int)) := do
   match set_cores (← int j "logical") (← optInt j "cores") with
   | .error e => return .error e
   | .ok c =>
-    let g := Usid.Mem.granted (← nat j "avail") (optNat j "mb")
-    return .ok (c, Usid.Mem.maxPos g c.toNat (← nat j "rowbytes") (← nat j "num") (← nat j "den"))
+    return match set_memory (← int j "avail") (← optInt j "mb") ⟨← int j "num", ← int j "den"⟩ c 1
+        (← int j "rowbytes") 1 with
+      | .error e => .error e
+      | .ok mp => .ok (c, mp)
 
 def hGenSizing (j : Json) : R Json := do
   return match ← sizing j with
   | .error e => err e
-  | .ok (c, mp) => Json.mkObj [("cores", toJson c), ("maxpos", mp)]
+  | .ok (c, mp) => Json.mkObj [("cores", toJson c), ("maxpos", toJson mp)]
 
 /-- sizing followed by the compute loop over `n` pending positions -/
 def hGenRun (j : Json) : R Json := do
